@@ -549,6 +549,29 @@ def job_analyze(job):
                 cm, is_exact = get_moment_given_termination(monom, solvers, rec_builder, cli_args, program)
                 to["closed_form"] = str(cm)[:2000]
                 to["values"] = [[eval_closed_form(cm, pt, n) for n in range(N + 1)] for pt in points]
+                if "after" in want:
+                    from cli.common import transform_to_after_loop
+                    lim = []
+                    far = []
+                    for pt in points:
+                        sub = {sympy.Symbol(k): sympy.Rational(v) for k, v in pt.items()}
+                        try:
+                            L = transform_to_after_loop(sympy.sympify(cm).xreplace(sub))
+                            lim.append({"inf": True, "text": str(L)} if L in (sympy.oo, -sympy.oo, sympy.zoo) else classify_value(L))
+                        except JobTimeout:
+                            raise
+                        except Exception as ex:
+                            lim.append({"undef": f"{type(ex).__name__}: {str(ex)[:100]}"})
+                        ff = []
+                        for nn in (150, 300):
+                            v = eval_closed_form(cm, pt, nn)
+                            try:
+                                ff.append(float(sympy.N(sympy.Rational(v["q"]), 30)) if "q" in v else float(v.get("approx", "nan")))
+                            except Exception:
+                                ff.append(None)
+                        far.append(ff)
+                    to["limit"] = lim
+                    to["far"] = far
             except JobTimeout:
                 raise
             except Exception as ex:
